@@ -178,6 +178,10 @@ def run_module(mod, ctx) -> None:
     ctx.aborted = None
     try:
         mod.run(ctx)
+        if not getattr(ctx, "sweeps_done", False):
+            from checks.common import generic_sweeps
+
+            generic_sweeps(ctx)  # every property gets the generic sweeps over its anchor files
     except AnalysisError as e:
         ctx.aborted = str(e)
         if not getattr(ctx, "sweeps_done", False):
